@@ -9,6 +9,7 @@ import (
 	"os"
 	"path/filepath"
 	"sort"
+	"sync"
 
 	proxyv1alpha1 "github.com/kubewharf/kubegateway/pkg/apis/proxy/v1alpha1"
 	"github.com/kubewharf/kubegateway/pkg/clusters"
@@ -486,9 +487,137 @@ func genSeq(c *rig.Ctx, raw bool) SeqCase {
 	return sc
 }
 
+// ---------------------------------------------------------------------------------------------
+// concurrent matching: the decision for a request must not depend on what else is being matched at the same time
+
+type ConcCase struct {
+	Kind     string                     `json:"kind"` // "conc"
+	Policies [][]map[string]interface{} `json:"policies"`
+	Reqs     []map[string]interface{}   `json:"reqs"`
+	Workers  int                        `json:"workers"`
+	Rounds   int                        `json:"rounds"`
+}
+
+func runConc(c *rig.Ctx, cc ConcCase, record bool) bool {
+	fail := func(kind, class, what string) bool {
+		if record {
+			c.Fail(rig.Failure{Kind: kind, Class: class, What: what, Case: cc})
+		}
+		return false
+	}
+	// what every request must be answered: the declarative spec, computed once, sequentially, by the model
+	want := make([]int, len(cc.Reqs))
+	for i, a := range cc.Reqs {
+		var m struct {
+			SpecIdx int `json:"spec_idx"`
+		}
+		if err := c.Model("C01.match", MatchCase{Kind: "match", Attrs: a, Policies: cc.Policies}, &m); err != nil {
+			return fail("diff", "c01.model-error", "model error "+err.Error())
+		}
+		want[i] = m.SpecIdx
+	}
+	ps := policiesOf(MatchCase{Policies: cc.Policies})
+	ci := clusters.NewEmptyClusterInfo("c", nil, nil, "", nil)
+	defer ci.Stop()
+	ci.Sync(&proxyv1alpha1.UpstreamCluster{ObjectMeta: metav1.ObjectMeta{Name: "c"}, Spec: proxyv1alpha1.UpstreamClusterSpec{DispatchPolicies: ps}})
+	recs := make([]mg.Attrs, len(cc.Reqs))
+	for i, a := range cc.Reqs {
+		recs[i] = attrsOf(a)
+	}
+	type bad struct{ req, got int }
+	var mu sync.Mutex
+	var first *bad
+	var wg sync.WaitGroup
+	start := make(chan struct{})
+	for w := 0; w < cc.Workers; w++ {
+		wg.Add(1)
+		go func(w int) {
+			defer wg.Done()
+			defer func() { recover() }()
+			<-start
+			for r := 0; r < cc.Rounds; r++ {
+				for k := range recs {
+					i := (k*7 + w*3 + r) % len(recs)
+					got := -1
+					if w%2 == 0 {
+						if picker, err := ci.MatchAttributes(recs[i].Record()); err == nil {
+							got = -3
+							fmt.Sscanf(picker.FlowControlName(), "fc-%d", &got)
+						}
+					} else if p := clusters.MatchPolicies(recs[i].Record(), ps); p != nil {
+						got = -3
+						fmt.Sscanf(p.FlowControlSchemaName, "fc-%d", &got)
+					}
+					if got != want[i] {
+						mu.Lock()
+						if first == nil {
+							first = &bad{i, got}
+						}
+						mu.Unlock()
+						return
+					}
+				}
+			}
+		}(w)
+	}
+	close(start)
+	wg.Wait()
+	if first != nil {
+		return fail("judge", "c01.concurrent", fmt.Sprintf("while %d goroutines were matching requests against the same policy list, request %d was routed under policy %d; the first policy with a matching rule is %d — the decision depends on concurrent activity",
+			cc.Workers, first.req, first.got, want[first.req]))
+	}
+	return true
+}
+
+func genConc(c *rig.Ctx) ConcCase {
+	r := c.Rng
+	cc := ConcCase{Kind: "conc", Workers: 4 + r.Intn(13), Rounds: 150}
+	var rules []proxyv1alpha1.DispatchPolicyRule
+	for i, n := 0, 2+r.Intn(3); i < n; i++ {
+		p := []map[string]interface{}{}
+		for j, k := 0, 1+r.Intn(3); j < k; j++ {
+			rule := mg.Rule(r, false)
+			// long lists, all-inverted ones in particular, in the fields every request walks
+			long := func() []string {
+				l := []string{}
+				inv := r.Intn(2) == 0
+				for x, n := 0, 3+r.Intn(12); x < n; x++ {
+					e := mg.Request(r, false)
+					if inv {
+						e = "-" + e
+					}
+					l = append(l, e)
+				}
+				return l
+			}
+			if r.Intn(2) == 0 {
+				rule.UserGroups = long()
+			}
+			if r.Intn(2) == 0 {
+				rule.Verbs = long()
+			}
+			if r.Intn(3) == 0 {
+				rule.Users = long()
+			}
+			rules = append(rules, rule)
+			p = append(p, mg.RuleJSON(rule))
+		}
+		cc.Policies = append(cc.Policies, p)
+	}
+	for i := 0; i < 24; i++ {
+		cc.Reqs = append(cc.Reqs, mg.AttrsFor(r, rules[r.Intn(len(rules))], false).JSON())
+	}
+	return cc
+}
+
 func runAny(c *rig.Ctx, raw json.RawMessage, record bool) bool {
 	var k struct{ Kind string }
 	json.Unmarshal(raw, &k)
+	if k.Kind == "conc" {
+		var cc ConcCase
+		json.Unmarshal(raw, &cc)
+		return runConc(c, cc, record)
+	}
 	if k.Kind == "seq" {
 		var sc SeqCase
 		json.Unmarshal(raw, &sc)
@@ -507,7 +636,7 @@ func runAny(c *rig.Ctx, raw json.RawMessage, record bool) bool {
 func main() {
 	rig.QuietKlog()
 	rig.Main("C01", func(c *rig.Ctx) {
-		c.SetRule("field cases: one of the 7 field matchers on a rule list (0-4 entries from a 39-token colliding universe or raw bytes; classes empty/star/positive/mixed/inverted-1/inverted-n) against request values from a 29-token universe; match cases: 0-4 policies x 0-3 rules against a request tuple, through clusters.MatchPolicies, RuleMatches and ClusterInfo.MatchAttributes; sequence cases: 6-15 requests (derived from the rules, single-attribute variants of earlier requests, repeats) and policy-list changes on ONE long-lived ClusterInfo. distinct = distinct canonical case; non-trivial = the rule list is not empty and not match-all (field) / at least one policy has a rule (match)")
+		c.SetRule("field cases: one of the 7 field matchers on a rule list (0-4 entries from a 39-token colliding universe or raw bytes; classes empty/star/positive/mixed/inverted-1/inverted-n) against request values from a 29-token universe; match cases: 0-4 policies x 0-3 rules against a request tuple, through clusters.MatchPolicies, RuleMatches and ClusterInfo.MatchAttributes; sequence cases: 6-15 requests (derived from the rules, single-attribute variants of earlier requests, repeats) and policy-list changes on ONE long-lived ClusterInfo; concurrent cases: 4-16 goroutines matching 24 requests against the same policy list (long all-inverted lists), every answer compared with the sequentially computed spec. distinct = distinct canonical case; non-trivial = the rule list is not empty and not match-all (field) / at least one policy has a rule (match)")
 		if c.Replay != "" {
 			var raw json.RawMessage
 			if err := c.LoadReplay(&raw); err != nil {
@@ -563,6 +692,12 @@ func main() {
 				x.Steps = steps
 				runSeq(c, x, true)
 			}
+		}
+		for i, n := 0, c.Budget(40, 800); i < n && !c.Stop(); i++ {
+			cc := genConc(c)
+			c.Case(rig.Canon(cc), true, "conc", nil)
+			c.Trace()
+			runConc(c, cc, true)
 		}
 		if c.Thorough() {
 			exhaustive(c)
